@@ -1,5 +1,6 @@
 import KV.ImportsProofs
 import KV.TypeConvProofs
+import KV.ReservedProofs
 import KV.WriteLast
 import KV.Generated.Orders
 import KV.Generated.TypeCases
@@ -149,7 +150,60 @@ theorem C14_type_kinds_covered :
     (["Named", "Alias", "Pointer", "Slice", "Array", "Map", "Chan", "Signature", "Struct", "Interface", "Basic"].all (fun k => Gen.typeToExprCases.contains k)) = true ∧
     Gen.typeToExprDefault = "ast.NewIdent(t.String())" := by decide
 
+/-! ### reserved names (`NewTypeConverter` after fix 42d40f3; `KV/Reserved.lean`, proofs in `KV/ReservedProofs.lean`) -/
+
+/-- with reserved names (the kessoku import, the package's own identifiers — fix 42d40f3): every type spelled from type
+    information still denotes the type it was spelled from, no import is given a reserved name, different packages get
+    different names, and no import is added that the types do not use -/
+theorem C14_types_roundtrip_reserved (c : Nat) (pname : Nat → String) (reserved : List String) (ts : List TConv.Ty)
+    (tc' : Imp.TC) (es : List TConv.Ex) (hwf : TConv.WFList ts = true) (hnr : TConv.noResList ts = true)
+    (h : TConv.renderList (some c) pname (Imp.TC.withReserved reserved) ts = some (tc', es)) :
+    TConv.resolveList (some c) tc' es = some ts ∧
+    (∀ p n, tc'.imports.lookup p = some n → n ∉ reserved ∧ n ∈ TConv.qualsList es) ∧
+    (∀ p q n, tc'.imports.lookup p = some n → tc'.imports.lookup q = some n → p = q) := by
+  have hi := invR_withReserved reserved
+  have hi' := TConv.renderList_invR ts _ tc' es hi hnr h
+  refine ⟨TConv.renderList_roundtrip_R ts _ tc' es hi hwf hnr h, ?_, ?_⟩
+  · intro p n hl
+    constructor
+    · intro hmem
+      rcases TConv.renderList_fresh_R ts _ tc' es h p n hl with h0 | hu
+      · simp [TC.withReserved] at h0
+      · have hr := lookup_map_mem reserved n hmem
+        simp only [TC.withReserved] at hu
+        rw [hr] at hu; cases hu
+    · rcases TConv.renderList_no_unused ts _ tc' es h p n hl with h0 | hm
+      · simp [TC.withReserved] at h0
+      · exact hm
+  · intro p q n hp hq
+    have h1 := hi'.1 p n hp
+    have h2 := hi'.1 q n hq
+    rw [h1] at h2; exact Option.some.inj h2
+
+/-- spelling a type from the table with reserved names always produces a result -/
+theorem C14_types_total_reserved (cur : Option Nat) (pname : Nat → String) (reserved : List String)
+    (ts : List TConv.Ty) : TConv.renderList cur pname (Imp.TC.withReserved reserved) ts ≠ none :=
+  TConv.renderList_total cur pname _ ts
+
+/-- `map[store.N0]kessoku.N1` seen from package 0, which declares an identifier `store` and imports kessoku: package 1
+    (named `store`) and package 2 (named `kessoku`) -/
+def resTy : TConv.Ty := .node .map [.node (.named 1 16) [], .node (.named 2 17) []]
+
+/-- the names `kessoku` and `store` are reserved: package 1 (`store`) is imported as `store_1`, package 2 (`kessoku`)
+    as `kessoku_1`; the hypotheses of `C14_types_roundtrip_reserved` hold for this type -/
+example : TConv.WFList [resTy] = true ∧ TConv.noResList [resTy] = true := by decide
+
+example : (TConv.render (some 0) (fun p => if p = 1 then "store" else "kessoku") (TC.withReserved ["kessoku", "store"])
+      resTy).map (fun r => (r.1.imports, TConv.exStr r.2)) =
+    some ([(2, "kessoku_1"), (1, "store_1")], "map[store_1.N0]kessoku_1.N1") := by rfl
+
+/-- and it denotes the type it was made from -/
+example : (TConv.render (some 0) (fun p => if p = 1 then "store" else "kessoku") (TC.withReserved ["kessoku", "store"])
+      resTy).bind (fun r => TConv.resolve (some 0) r.1 r.2) = some resTy := by rfl
+
 end C14
 
 #print axioms C14.C14_types_roundtrip
 #print axioms C14.C14_types_total
+#print axioms C14.C14_types_roundtrip_reserved
+#print axioms C14.C14_types_total_reserved
